@@ -89,6 +89,21 @@ def h_tree(B, grid, flat, level):
         B.holds("children of one index are pairwise distinct", diff)
 
 
+def h_kids_valid(B, grid, flat, level):
+    """no precondition on the index"""
+    g = make(grid, flat)
+    gl, gn = g.at(level), g.at(level + 1)
+    i = sym_index(B, "i", gl.shape)
+    # EVERY index of the level (also the padding band of open grids, which the code maps to the nearest refined cell,
+    # "jax-array inspired out of bounds handling"): the children are valid indices of the next level
+    ch_all = np.asarray(jcall(B, lambda i: gl.children(i), i), dtype=object)
+    kids_all = ch_all.reshape(ch_all.shape[0], -1)
+    for c in range(kids_all.shape[1]):
+        for k in range(kids_all.shape[0]):
+            B.holds("every index (refined or padding): children lie inside the next level",
+                    (kids_all[k, c] >= 0) & (kids_all[k, c] < int(gn.shape[k])))
+
+
 def h_cover(B, grid, flat, level):
     """every index j of level+1 is a child of its parent: the children of all indices cover (hence partition) the next level"""
     g = make(grid, flat)
@@ -241,6 +256,8 @@ def scenarios(tier, seed):
                 if tier == "quick" and flat == "nest" and name == "reg2b" and lvl == 1:
                     continue      # nested div/mod chains of the nest ordering on the second level: thorough tier
                 out.append(("tree", {"grid": name, "flat": flat, "level": lvl}))
+                if name.startswith("open") or name == "prod":
+                    out.append(("kids_valid", {"grid": name, "flat": flat, "level": lvl}))
                 out.append(("cover", {"grid": name, "flat": flat, "level": lvl}))
             if flat:
                 for lvl in range(depth + 1):
@@ -261,7 +278,7 @@ def scenarios(tier, seed):
     return out
 
 
-HARNESSES = {"hp_neigh": h_hp_neigh, "tree": h_tree, "cover": h_cover, "flat": h_flat, "coord": h_coord, "neigh": h_neigh, "volume": h_volume}
+HARNESSES = {"hp_neigh": h_hp_neigh, "tree": h_tree, "kids_valid": h_kids_valid, "cover": h_cover, "flat": h_flat, "coord": h_coord, "neigh": h_neigh, "volume": h_volume}
 OPTS = {"quick": {"max_paths": 8, "budget_s": 400, "jobs": 12, "obl_timeout_ms": 60000}, "thorough": {"max_paths": 8, "budget_s": 1500, "jobs": 12}}
 
 META = {
@@ -281,5 +298,5 @@ META = {
                         "each also flattened in serial and nest ordering", "axis lengths": "<= 12"},
     "stubs": ["jaxpr interpreter with an integer sort: XLA div/rem truncate, Python // and % floor; round(x) = integer within 1/2"],
     "outside": ["coord2index of regular grids (uses numpy.rint on its argument: not traceable; the open-grid implementation is covered)", "HEALPix grids except the arithmetic neighbourhood windows 1 and whole-sphere (the rest is jhealpix bit twiddling + ducc)", "logarithmic radial grids (exp/log of coordinates)", "SparseGrid", "out-of-range indices (wrap/clamp of _parse_index)"],
-    "assumptions": ["0 <= index < shape; children() only for refined indices (inside the padding)"],
+    "assumptions": ["0 <= index < shape; the tree identities only for refined indices (inside the padding); validity of the children of open grids for EVERY index"],
 }
